@@ -154,6 +154,11 @@ def run(ctx):
     ctx.extra.update({"records": len(recs), "profiles_batches": len(batches), "membership_questions": len(uniq)})
 
 
+def has_tag(text, prefix, tagstr, suffix=""):
+    """Exact tag match: a tag is a run of letters g..p, so 'zqh' must not match inside 'zqhh'."""
+    return re.search(re.escape(prefix + tagstr) + r"(?![g-p])" + re.escape(suffix), text or "") is not None
+
+
 def F(rule):
     return rule["fields"] if isinstance(rule.get("fields"), dict) else {}
 
@@ -167,7 +172,7 @@ def check_record(ctx, r, v, rules, audit, pending):
         name = v["name"]
         mask = v["requested_mask"]
         kind = "link" if mask == "l" else "file"
-        cands = [x for x in rules if x["kind"] == kind and ("zq" + tagstr) in F(x).get("Path", "")]
+        cands = [x for x in rules if x["kind"] == kind and has_tag(F(x).get("Path", ""), "zq", tagstr)]
         if not cands:
             return (False, "no-rule: no %s rule for %s" % (kind, name), False)
         ok_any = False
@@ -200,7 +205,7 @@ def check_record(ctx, r, v, rules, audit, pending):
                     why = bad
                     continue
             else:
-                if ("lzq" + tagstr) not in f.get("Target", ""):
+                if not has_tag(f.get("Target", ""), "lzq", tagstr):
                     why = "link-target: `%s` does not name the target %s" % (x["text"], v.get("target"))
                     continue
                 pending.append((r, f["Target"], v["target"]))
@@ -228,7 +233,7 @@ def check_record(ctx, r, v, rules, audit, pending):
         return (ok, "ptrace: no rule for %s peer=%s" % (v["requested_mask"], v["peer"]), False)
     if cls == "dbus":
         if v["mask"] == "bind":
-            ok = any(x["kind"] == "dbus" and "bind" in (F(x).get("Access") or []) and F(x).get("Bus") == v["bus"] and tagstr in F(x).get("Name", "") and qual_ok(F(x)) for x in rules)
+            ok = any(x["kind"] == "dbus" and "bind" in (F(x).get("Access") or []) and F(x).get("Bus") == v["bus"] and has_tag(F(x).get("Name", ""), "T", tagstr) and qual_ok(F(x)) for x in rules)
             return (ok, "dbus: no bind rule for %s on %s" % (v["name"], v["bus"]), False)
         ok = any(x["kind"] == "dbus" and v["mask"] in (F(x).get("Access") or [v["mask"]]) and F(x).get("Bus") == v["bus"] and F(x).get("Path") == v["path"]
                  and F(x).get("Interface") == v["interface"] and F(x).get("Member") == v["member"] and F(x).get("PeerLabel") and qual_ok(F(x)) for x in rules)
@@ -240,7 +245,7 @@ def check_record(ctx, r, v, rules, audit, pending):
             if x["kind"] != kind or not qual_ok(f):
                 continue
             point = f.get("MountPoint") if kind != "pivot_root" else f.get("NewRoot")
-            if ("m" + tagstr + "/") not in (point or ""):
+            if not has_tag(point, "/m", tagstr, "/"):
                 continue
             if kind in ("mount", "remount"):
                 if f.get("FsType") != v.get("fstype"):
@@ -257,7 +262,7 @@ def check_record(ctx, r, v, rules, audit, pending):
         ok = any(x["kind"] == "change_profile" and F(x).get("ProfileName") and qual_ok(F(x)) for x in rules)
         return (ok, "change_profile: no rule for target %s" % v.get("target"), False)
     if cls == "mqueue":
-        ok = any(x["kind"] == "mqueue" and tagstr in F(x).get("Name", "") for x in rules)
+        ok = any(x["kind"] == "mqueue" and has_tag(F(x).get("Name", ""), "/q", tagstr) for x in rules)
         return (ok, "mqueue: no rule for %s" % v.get("name"), False)
     if cls == "io_uring":
         ok = any(x["kind"] == "io_uring" and v["requested"] in (F(x).get("Access") or []) for x in rules)
